@@ -45,7 +45,11 @@ def gen_case(rng, tier):
                       weights={"proj": 1.6, "dedup": 1.5, "slice": 1.5, "join": 1.5, "chain": 1.3}, sort_then_slice_prob=0.6,
                       max_depth=2 if tier == "quick" or rng.random() < 0.6 else 3, leaf_cols=rng.choice(["abcd", "ab", "a"]))
     g = gen.Gen(rng, cfg)
-    case = gen.case_from(g, g.tree())
+    state = g.tree()
+    if rng.random() < 0.1:
+        # equal-named leaves with different content and bounds (relations that compare equal)
+        state = gen.chain_with_name_twin(g, state, rng) or state
+    case = gen.case_from(g, state)
     case["engine"] = engine
     return case
 
